@@ -64,6 +64,11 @@ class CFG:
             if n.k in ("WhileStmt", "ForStmt", "DoStmt", "IfStmt", "CompoundStmt", "SwitchStmt"):
                 break
             n = n.parent
+        # jump statements (break / continue / goto) are terminators, not elements
+        if node.k in ("BreakStmt", "ContinueStmt", "GotoStmt"):
+            for b in self.blocks.values():
+                if b.term is node:
+                    return (b.id, len(b.elems))
         # a condition / wrapper expression that is not an element itself: the last of its sub-expressions that is
         best = None
         for d in node.walk():
